@@ -43,6 +43,7 @@ CONSTANTS Peer,        \* nodes that can connect to us
           TS,          \* timestamps peers put on announcements
           MaxTicks,    \* bound on gossip ticks
           MaxOps,      \* bound on behaviour length
+          InvOf(_),    \* the inventory an inventory announcement carries (a function of the announcement)
           Dev          \* enabled deviations
 
 Self == 0
@@ -52,11 +53,12 @@ TickLen == 7
 Kinds == {"node", "inv", "refs"}
 
 VARIABLES clock, known, store, relayedBy, conn, sub, private, ownTs, ownInv, restarts,
+          routing,    \* the routing table: set of <<repo, node>> ("node seeds repo"), cf. sync_routing
           out, disc, delivered, hist
 
-vars == <<clock, known, store, relayedBy, conn, sub, private, ownTs, ownInv, restarts, out, disc, delivered, hist>>
-\* hist (the behaviour so far, as a harness script) and delivered's history are not part of the view
-view == <<clock, known, store, relayedBy, conn, sub, private, ownTs, ownInv, restarts, out, disc, delivered>>
+vars == <<clock, known, store, relayedBy, conn, sub, private, ownTs, ownInv, restarts, routing, out, disc, delivered, hist>>
+\* hist (the behaviour so far, as a harness script) is not part of the view
+view == <<clock, known, store, relayedBy, conn, sub, private, ownTs, ownInv, restarts, routing, out, disc, delivered>>
 
 Key(a) == <<a.node, a.kind, a.repo>>
 Ident(a) == [node |-> a.node, kind |-> a.kind, repo |-> a.repo, ts |-> a.ts]
@@ -96,6 +98,7 @@ Init ==
     /\ ownTs = 2
     /\ ownInv = [ts |-> 2, repos |-> {r \in Stored \cap Seeded : r \notin InitPrivate}]
     /\ restarts = 0
+    /\ routing = {<<r, Self>> : r \in {x \in Stored \cap Seeded : x \notin InitPrivate}}
     /\ out = {} /\ disc = {} /\ delivered = {} /\ hist = <<>>
 
 Log(op) == Len(hist) < MaxOps /\ hist' = Append(hist, op)
@@ -108,7 +111,7 @@ Connect(p) ==
     /\ out' = {[to |-> p, ann |-> [node |-> Self, kind |-> "inv", repo |-> 0, ts |-> ownInv.ts], path |-> "own"]}
     /\ disc' = {}
     /\ Log(<<"connect", p>>)
-    /\ UNCHANGED <<clock, known, store, relayedBy, private, ownTs, ownInv, restarts, delivered>>
+    /\ UNCHANGED <<clock, known, store, relayedBy, private, ownTs, ownInv, restarts, routing, delivered>>
 
 Disconnect(p) ==
     /\ p \in conn
@@ -116,7 +119,7 @@ Disconnect(p) ==
     /\ sub' = [sub EXCEPT ![p] = {}]
     /\ out' = {} /\ disc' = {}
     /\ Log(<<"disconnect", p>>)
-    /\ UNCHANGED <<clock, known, store, relayedBy, private, ownTs, ownInv, restarts, delivered>>
+    /\ UNCHANGED <<clock, known, store, relayedBy, private, ownTs, ownInv, restarts, routing, delivered>>
 
 \* handle_announcement: the outcome class of an incoming announcement
 Outcome(p, a) ==
@@ -139,13 +142,13 @@ Receive(p, a) ==
        /\ delivered' = IF oc \in {"stale", "store"} THEN delivered \cup {<<Ident(a), p>>} ELSE delivered
        /\ CASE oc = "misbehave" ->
                  /\ disc' = {p} /\ out' = {}
-                 /\ UNCHANGED <<known, store, relayedBy>>
+                 /\ UNCHANGED <<known, store, relayedBy, routing>>
             [] oc = "ignore" ->
                  /\ disc' = {} /\ out' = {}
-                 /\ UNCHANGED <<known, store, relayedBy>>
+                 /\ UNCHANGED <<known, store, relayedBy, routing>>
             [] oc = "stale" ->
                  /\ disc' = {} /\ out' = {}
-                 /\ UNCHANGED <<known, store>>
+                 /\ UNCHANGED <<known, store, routing>>
                  \* design: remember that p also has this announcement; code (deviation): doesn't
                  /\ IF "stale-deliverer" \in Dev \/ Entry(k).ts # a.ts
                     THEN UNCHANGED relayedBy
@@ -165,7 +168,13 @@ Receive(p, a) ==
                        /\ store' = (k :> [ts |-> a.ts, relay |-> IF HasKey(k) THEN Entry(k).relay ELSE "dont"]) @@ store
                        /\ out' = {}
                  /\ known' = IF a.kind = "node" THEN known \cup {a.node} ELSE known
-    /\ Log(<<"ann", p, a.node, a.kind, a.repo, a.ts, a.sig, 1>>)
+                 \* sync_routing: an inventory replaces the announcer's entries; a (non-empty) refs
+                 \* announcement adds one (seed_discovered)
+                 /\ routing' = IF a.kind = "inv"
+                                THEN {e \in routing : e[2] # a.node} \cup {<<r, a.node>> : r \in InvOf(a)}
+                                ELSE IF a.kind = "refs" THEN routing \cup {<<a.repo, a.node>>}
+                                ELSE routing
+    /\ Log(<<"ann", p, a.node, a.kind, a.repo, a.ts, a.sig, IF a.kind = "inv" THEN InvOf(a) ELSE {1}>>)
     /\ UNCHANGED <<clock, conn, sub, private, ownTs, ownInv, restarts>>
 
 \* Message::Subscribe: replay of stored announcements
@@ -182,7 +191,7 @@ Subscribe(p, F, since) ==
        IN out' = {[to |-> p, ann |-> [node |-> k[1], kind |-> k[2], repo |-> k[3], ts |-> store[k].ts], path |-> "sub"] : k \in replay}
     /\ disc' = {}
     /\ Log(<<"sub", p, F, since>>)
-    /\ UNCHANGED <<clock, known, store, relayedBy, conn, private, ownTs, ownInv, restarts, delivered>>
+    /\ UNCHANGED <<clock, known, store, relayedBy, conn, private, ownTs, ownInv, restarts, routing, delivered>>
 
 \* tick + wake: relay stored inventories whose relay flag is set
 GossipTick ==
@@ -195,7 +204,7 @@ GossipTick ==
        /\ store' = [k \in DOMAIN store |-> IF k \in pending THEN [store[k] EXCEPT !.relay = "relayed"] ELSE store[k]]
     /\ disc' = {}
     /\ Log(<<"tick", TickLen * 1000>>)
-    /\ UNCHANGED <<known, relayedBy, conn, sub, private, ownTs, ownInv, restarts, delivered>>
+    /\ UNCHANGED <<known, relayedBy, conn, sub, private, ownTs, ownInv, restarts, routing, delivered>>
 
 \* Command::AnnounceRefs for a repository we have
 AnnounceRefs(r) ==
@@ -209,7 +218,7 @@ AnnounceRefs(r) ==
                      q \in {x \in conn : VisibleTo(r, x) /\ r \in sub[x]}}
     /\ disc' = {}
     /\ Log(<<"refs", r>>)
-    /\ UNCHANGED <<clock, known, relayedBy, conn, sub, private, ownInv, restarts, delivered>>
+    /\ UNCHANGED <<clock, known, relayedBy, conn, sub, private, ownInv, restarts, routing, delivered>>
 
 \* the repository's identity document changes on disk
 VisChange(r) ==
@@ -217,7 +226,7 @@ VisChange(r) ==
     /\ private' = [private EXCEPT ![r] = ~private[r]]
     /\ out' = {} /\ disc' = {}
     /\ Log(<<"vis", r, ~private[r], Allow[r]>>)
-    /\ UNCHANGED <<clock, known, store, relayedBy, conn, sub, ownTs, ownInv, restarts, delivered>>
+    /\ UNCHANGED <<clock, known, store, relayedBy, conn, sub, ownTs, ownInv, restarts, routing, delivered>>
 
 \* Service::initialize run again: the inventory is recomputed from storage (public, seeded)
 Restart ==
@@ -229,6 +238,8 @@ Restart ==
        /\ store' = (<<Self, "inv", 0>> :> [ts |-> ts, relay |-> "dont"]) @@ store
        /\ out' = {[to |-> q, ann |-> [node |-> Self, kind |-> "inv", repo |-> 0, ts |-> ts], path |-> "own"] : q \in conn}
     /\ disc' = {}
+    \* our own routing entries: public ones (re)added, private ones removed
+    /\ routing' = {e \in routing : e[2] # Self \/ ~private[e[1]]} \cup {<<r, Self>> : r \in PublicInventory}
     /\ Log(<<"restart">>)
     /\ UNCHANGED <<clock, known, relayedBy, conn, sub, private, delivered>>
 
@@ -274,6 +285,18 @@ C10_Monotone ==
 C11_Refs == \A s \in out : s.ann.kind = "refs" /\ private[s.ann.repo] => VisibleTo(s.ann.repo, s.to)
 C11_Inventory == \A r \in ownInv.repos : r \in Stored  \* (privacy is checked at creation: see Restart / Init)
 C11_InventoryAtCreation == [][ownInv' # ownInv => \A r \in ownInv'.repos : ~private'[r]]_vars
+
+\* Routing table (beyond the listed properties) -------------------------------------------------
+\* Every foreign routing entry is backed by a stored announcement of that node: its latest
+\* inventory lists the repository, or it announced refs for it.
+RoutingJustified ==
+    \A e \in routing : e[2] # Self =>
+        \/ <<e[2], "inv", 0>> \in DOMAIN store
+        \/ <<e[2], "refs", e[1]>> \in DOMAIN store
+\* Routing entries only name nodes we know (the announcer gate).
+RoutingKnownNodes == \A e \in routing : e[2] # Self => e[2] \in known
+\* Our own entries are never private after (re)initialisation -- see Restart.
+OwnRoutingPublicAtStart == [][restarts' # restarts => \A e \in routing' : e[2] = Self => ~private'[e[1]]]_vars
 
 \* C29 ----------------------------------------------------------------------
 C29_Increasing == [][ownTs' # ownTs => ownTs' > ownTs]_vars
